@@ -47,6 +47,12 @@ type Prop struct {
 	Post func(r *RunResult)
 	// WatchdogQuick/Thorough: seconds a shard may take before it is dumped.
 	WatchdogQuick, WatchdogThorough int
+	// StallQuick/Thorough: seconds a single case may be in flight before the shard gives up on it, reports
+	// it (INCONCLUSIVE: no finite run decides a hang) and is restarted behind it, so that a call that never
+	// returns on one input does not hide violations on the inputs that follow. Default 150 / 900.
+	StallQuick, StallThorough int
+	// StallClass: shorter limits (seconds) for classes whose cases are known to take microseconds.
+	StallClass map[string]int
 }
 
 var registry = map[string]*Prop{}
@@ -163,11 +169,15 @@ type Gen struct {
 	st   *shardStats
 	slot *slot
 	work chan caseItem
+
+	emitted int64 // index of the next case (generation order)
+	from    int64 // cases with a smaller index are generated but not judged (restart behind a stalled case)
 }
 
 type caseItem struct {
 	class string
 	key   []byte
+	idx   int64
 }
 
 // Quick reports whether this is the quick tier.
@@ -224,15 +234,20 @@ func (g *Gen) Bytes(n int) []byte {
 
 // Emit judges one case (or hands it to the judging goroutines in parallel mode).
 func (g *Gen) Emit(class string, key []byte) {
-	if g.work != nil {
-		g.work <- caseItem{class, append([]byte(nil), key...)}
+	idx := g.emitted
+	g.emitted++
+	if idx < g.from {
 		return
 	}
-	g.run(0, class, key)
+	if g.work != nil {
+		g.work <- caseItem{class, append([]byte(nil), key...), idx}
+		return
+	}
+	g.run(0, class, key, idx)
 }
 
-func (g *Gen) run(worker int, class string, key []byte) {
-	g.slot.begin(worker, class, key)
+func (g *Gen) run(worker int, class string, key []byte, idx int64) {
+	g.slot.begin(worker, class, key, idx)
 	o := g.judge(class, key)
 	g.slot.end(worker)
 	g.st.record(g.prop, class, key, o)
